@@ -121,10 +121,20 @@ def write_if_changed(path: Path, text: str):
     return True
 
 
+PROJECT_HEAD = ("-Q . TV\n"
+                "-arg -w -arg -notation-overridden,-deprecated-hint-without-locality,-deprecated-instance-without-locality\n")
+
+
 def ensure_makefile():
-    mk = COQ / "Makefile"
+    """_CoqProject lists every .v under gen/ model/ spec/ proofs/ props/ (sorted); regenerated when the set changes"""
+    files = []
+    for d in ("gen", "model", "spec", "proofs", "props"):
+        files += sorted(str(f.relative_to(COQ)) for f in (COQ / d).glob("*.v"))
+    text = PROJECT_HEAD + "\n".join(files) + "\n"
     proj = COQ / "_CoqProject"
-    if not mk.exists() or mk.stat().st_mtime < proj.stat().st_mtime:
+    changed = write_if_changed(proj, text)
+    mk = COQ / "Makefile"
+    if changed or not mk.exists():
         subprocess.run(["coq_makefile", "-f", "_CoqProject", "-o", "Makefile"], cwd=COQ, check=True,
                        capture_output=True)
 
